@@ -119,7 +119,10 @@ def run(ctx):
     check_cross_kind(ctx)
     check_ordered_equality(ctx, fns)
     import c10, engine
-    c10.run(engine.AliasCtx(ctx, {"R10.2": "R07.8"}))
+    c10.run(engine.AliasCtx(ctx, {"R10.2": "R07.8", "R10.3": "R07.8"}))
+    # "use at argument time": set_instantiation_argument's verdicts inside the already-passed scan (C06 R06.8)
+    import c06
+    c06.check_argument_scan(engine.AliasCtx(ctx, {"R06.8": "R07.8"}), [f for f in db.fns.values() if f.crate == "wac_graph"])
 
 
 def check_variance(ctx, fns):
